@@ -158,6 +158,7 @@ impl WorldB {
             to_slot,
             to_epoch: to_slot.map(|j| self.slots[j].epoch).unwrap_or(0),
             accepted_in: None,
+            sealed_c2s: !matches!(producer, Producer::Server { .. }),
         };
         self.ledger.push(rec);
         let ix = self.ledger.len() - 1;
@@ -295,14 +296,14 @@ impl WorldB {
             if !bogus && matches!(ptype, T_KEEPALIVE | T_PAYLOAD | T_DISCONNECT) {
                 if let Some(id) = sess_id {
                     // sealed under the session's own keys by their legitimate owner: treated as that client's traffic, model tainted
-                    if Some(self.sessions[&id].tid) == rec_tid {
+                    if Some(self.sessions[&id].tid) == rec_tid && self.ledger[ix].sealed_c2s {
                         authentic_first = true;
                         self.sessions.get_mut(&id).unwrap().rx_taint = true;
                     }
                 }
             }
         }
-        if sess_id.is_none() && !bogus && matches!(ptype, T_KEEPALIVE | T_PAYLOAD | T_DISCONNECT) {
+        if sess_id.is_none() && !bogus && self.ledger[ix].sealed_c2s && matches!(ptype, T_KEEPALIVE | T_PAYLOAD | T_DISCONNECT) {
             if let Some(p) = self.pend_model.get_mut(&src) {
                 if Some(p.0) == rec_tid {
                     let in_window = !p.1.contains(&seq) && p.2.map(|h| seq.checked_add(256).map(|x| x > h).unwrap_or(true)).unwrap_or(true);
@@ -440,6 +441,24 @@ impl WorldB {
                     obs.violate("C18", "genuine-disconnect-ignored", "server", format!("datagram {} from client {}", ix, id));
                 }
             }
+        }
+        if std::env::var("VERIF_DEBUG2").is_ok() {
+            let kind = match &res {
+                Res::None => "None",
+                Res::Send { .. } => "Send",
+                Res::Payload { .. } => "Payload",
+                Res::Connected { .. } => "Connected",
+                Res::Disconnected { .. } => "Disconnected",
+            };
+            eprintln!(
+                "  to-server dgram {} {} seq {} tid {:?} producer {:?} src {} sess {:?} sess_tid {:?} seen {:?} high {:?} auth_first {} -> {} | pend_model {:?}",
+                ix, tname(ptype), seq, rec_tid, producer, src, sess_id,
+                sess_id.and_then(|id| self.sessions.get(&id)).map(|s| s.tid),
+                sess_id.and_then(|id| self.sessions.get(&id)).map(|s| s.rx_seen.iter().copied().collect::<Vec<_>>()),
+                sess_id.and_then(|id| self.sessions.get(&id)).and_then(|s| s.rx_highest),
+                authentic_first, kind,
+                self.pend_model.iter().map(|(a, p)| (*a, p.0, p.1.iter().copied().collect::<Vec<_>>())).collect::<Vec<_>>()
+            );
         }
         let trigger = Some(ix);
         self.handle_res(res, src, trigger, obs);
@@ -666,7 +685,7 @@ impl WorldB {
         // authentic for this client = sealed by the server under the keys of the token this client holds
         let genuine_for_me = !bogus && matches!(producer, Producer::Server { .. }) && rec_tid == Some(self.slots[slot].tid);
         // the adversary speaking to a client with keys that client holds can only be the holder of those keys attacking itself
-        let self_inflicted = !bogus && matches!(producer, Producer::Adversary) && rec_tid == Some(self.slots[slot].tid) && self.tokens[self.slots[slot].tid].adv_owned;
+        let self_inflicted = !bogus && !self.ledger[ix].sealed_c2s && matches!(producer, Producer::Adversary) && rec_tid == Some(self.slots[slot].tid) && self.tokens[self.slots[slot].tid].adv_owned;
         if self_inflicted {
             self.slots[slot].rx_taint = true;
         }
